@@ -231,10 +231,7 @@ class OrderFlow(InterFlow):
         b = path_key(target.value)
         if b is not None and isinstance(target.slice, ast.Constant):
             key = "%s[%r]" % (b, target.slice.value)
-            if v != TOP:
-                env[key] = v
-            else:
-                env.pop(key, None)
+            env[key] = v if v != TOP else ("obj", "stored-value")
 
     def on_return(self, s, v, env):
         super().on_return(s, v, env)
@@ -253,6 +250,9 @@ class OrderFlow(InterFlow):
                 if key in env:
                     return env[key]
             v = self.eval(e.value, env)
+            if b is not None and isinstance(e.slice, ast.Constant) and isinstance(e.slice.value, str) and \
+                    (v == NONE or (isinstance(v, tuple) and v and v[0] == "dictlit" and e.slice.value not in dict(v[1]))):
+                self.inter.missing_keys.append((self.fi, e, b, e.slice.value, "None" if v == NONE else "a dict without that key", list(self.inter.stack)))
             if is_seq(v):
                 if isinstance(e.slice, ast.Slice):
                     st = e.slice
@@ -431,6 +431,9 @@ class OrderFlow(InterFlow):
         callee = inter.resolve(self.fi, e)
         if callee is not None:
             return self.call_inrepo(e, callee, env)
+        from .loader import ClassInfo
+        if isinstance(inter.ctx.res.resolve_expr(self.fi, e.func), ClassInfo):
+            return NOTNONE
         # unknown callee
         d = derived(allvals)
         if d is not None:
@@ -504,6 +507,7 @@ class OrderInter(Inter):
     def __init__(self, ctx, primitive=None):
         super().__init__(ctx, primitive, track=None, max_depth=16)
         self.sinks = []
+        self.missing_keys = []
         self.destroyed = []
         self._perm = {}
 
